@@ -4,8 +4,12 @@
    controller/ble/pairing.py, key.py, crypto/chacha20poly1305.py, manufacturer_data.py).
 
    An advertisement is symbolic (ideal AEAD with a 4-byte tag):
+     from - the BLE address the advertisement was received from: the address on record for a loaded
+            pairing, or an unrelated one (an identifier of Ids stands for "the address of that
+            accessory").  The property does not mention it: acceptance depends on the advertising
+            identifier only, whoever the advertiser is,
      to   - the advertising identifier in the header (it routes the advertisement to a pairing and
-            is the associated data the *receiver* uses),
+            is the associated data the *receiver* uses); it may belong to no loaded pairing (Foreign),
      k    - whose broadcast key sealed the payload,
      aad  - the identifier the *sender* used as associated data,
      n    - the state number the nonce was built from,
@@ -52,10 +56,11 @@ Ids == Pairings \cup Foreign
 Offsets == {0 - b : b \in Back} \cup Fwd
 Dmg == {"none", "payload", "tag"}
 MAXGSN == 65535                                   \* the inner counter is 16 bit
-\* advertisements are kept in the history set as tuples (printable / parsable by the harness)
+\* advertisements are kept in the history set as tuples (printable / parsable by the harness); the tuple
+\* is what was on the air - the advertiser's address is not part of it
 Tup(a) == <<a.to, a.k, a.aad, a.n, a.g, a.iid, a.val, a.dmg>>
-Rec(t) == [to |-> t[1], k |-> t[2], aad |-> t[3], n |-> t[4], g |-> t[5], iid |-> t[6], val |-> t[7], dmg |-> t[8]]
-NoAdv == [to |-> "-", k |-> "-", aad |-> "-", n |-> 0, g |-> 0, iid |-> 0, val |-> 0, dmg |-> "none"]
+Rec(t, f) == [from |-> f, to |-> t[1], k |-> t[2], aad |-> t[3], n |-> t[4], g |-> t[5], iid |-> t[6], val |-> t[7], dmg |-> t[8]]
+NoAdv == [from |-> "-", to |-> "-", k |-> "-", aad |-> "-", n |-> 0, g |-> 0, iid |-> 0, val |-> 0, dmg |-> "none"]
 
 Min(S) == CHOOSE x \in S : \A y \in S : x <= y
 
@@ -83,7 +88,8 @@ FirstHit(a, p, l) == IF ~(a.k = p /\ a.aad = p /\ a.dmg = "none") THEN -1      \
                               hits == {i \in DOMAIN cs : Opens(a, p, cs[i])}
                           IN IF hits = {} THEN -1 ELSE cs[Min(hits)]
 Decide(a, l, ky) ==
-    IF a.to \notin Pairings THEN "unrouted"           \* controller.py: self.pairings.get(data.id)
+    IF a.to \notin Pairings THEN "unrouted"           \* controller.py: self.pairings.get(data.id) - by the
+                                                     \* advertising identifier only, never by a.from
     ELSE IF ~ky[a.to] THEN "nokey"
     ELSE LET c == FirstHit(a, a.to, l[a.to])
          IN IF c = -1 THEN "undecryptable"
@@ -102,6 +108,8 @@ GSet(n) == {x \in {n, n + 1, n - 1} : x >= 0 /\ x <= MAXGSN}
 \* wrong key or for the wrong identifier is not additionally damaged / made inconsistent
 Canon(a) == /\ (a.k = a.to /\ a.aad = a.to /\ a.dmg = "none" /\ a.g = a.n) \/ (a.iid = Min(Iids) /\ a.val = Min(Vals))
             /\ (a.k # a.to \/ a.aad # a.to) => (a.dmg = "none" /\ a.g = a.n)
+            /\ a.from # a.to => (a.dmg = "none" /\ a.g = a.n /\ a.iid = Min(Iids) /\ a.val = Min(Vals))
+                                                       \* other advertisers: intact payloads, one (iid, val)
 
 Notify(a) ==
     LET why == Decide(a, last, key)
@@ -114,14 +122,14 @@ Notify(a) ==
 
 \* a freshly sealed or forged advertisement
 Adv == /\ Bounded
-       /\ \E to \in Ids, k \in Ids, aad \in Ids, n \in NSet, iid \in Iids, val \in Vals, dmg \in Dmg :
+       /\ \E from \in Ids, to \in Ids, k \in Ids, aad \in Ids, n \in NSet, iid \in Iids, val \in Vals, dmg \in Dmg :
             \E g \in GSet(n) :
-              LET a == [to |-> to, k |-> k, aad |-> aad, n |-> n, g |-> g, iid |-> iid, val |-> val, dmg |-> dmg]
+              LET a == [from |-> from, to |-> to, k |-> k, aad |-> aad, n |-> n, g |-> g, iid |-> iid, val |-> val, dmg |-> dmg]
               IN Canon(a) /\ Notify(a)
-\* the attacker re-broadcasts, bit for bit, an advertisement that was accepted before (re-broadcasts of
-\* advertisements that were not accepted are instances of Adv: the symbolic record is the same)
+\* the attacker re-broadcasts, bit for bit and from any address, an advertisement that was accepted before
+\* (re-broadcasts of advertisements that were not accepted are instances of Adv: the symbolic record is the same)
 Replay == /\ Bounded
-          /\ \E t \in acc : Notify(Rec(t))
+          /\ \E t \in acc, f \in Ids : Notify(Rec(t, f))
 \* the session derives the broadcast key (pairing.py: _async_set_broadcast_encryption_key)
 InstallKey == /\ Bounded
               /\ \E p \in Pairings :
